@@ -33,3 +33,25 @@ std::size_t alloca_unbounded(const std::uint8_t *p, std::size_t n)
 }
 
 }
+
+// narrowing of an input-derived wide integer
+#include <cstdlib>
+#include <climits>
+namespace verif_probe {
+
+int narrow_unchecked(const char *s)
+{
+    int v = ::strtol(s, nullptr, 10);      // long -> int without a range test
+    return v;
+}
+
+int narrow_checked(const char *s)
+{
+    long w = ::strtol(s, nullptr, 10);
+    if (w < INT_MIN || w > INT_MAX)
+        return 0;
+    int v = static_cast<int>(w);
+    return v;
+}
+
+}
